@@ -67,6 +67,8 @@ def default_atom_facts(t: ast.AST) -> tuple:
                     F.add(("minlen", ln, 1))
             elif isinstance(op, ast.NotEq) and k == 0:
                 T.add(("minlen", ln, 1))
+            elif isinstance(op, ast.NotEq):
+                F.add(("minlen", ln, k))
             return T, F
         ln, k = len_of(r), const(l)
         if ln is not None and k is not None:
